@@ -115,6 +115,10 @@ impl<H: Hasher> BatchMerkleProof<H> {
         if indexes.is_empty() {
             return Err(MerkleTreeError::TooFewLeafIndexes);
         }
+        // there must be exactly one leaf per index; surplus leaves would otherwise be ignored
+        if indexes.len() != leaves.len() {
+            return Err(MerkleTreeError::InvalidProof);
+        }
 
         let mut buf = [H::Digest::default(); 2];
         let mut v = BTreeMap::new();
